@@ -1,0 +1,34 @@
+//! Verification hook (only compiled with `--cfg capy_verif`).
+//!
+//! Counts parser steps (token peeks, started nodes, bumped tokens) per parse so that an external
+//! harness can bound the work done per input token, and turns non-termination into a
+//! deterministic panic instead of unbounded memory growth.
+
+use std::cell::Cell;
+
+thread_local! {
+    static STEPS: Cell<u64> = const { Cell::new(0) };
+    static LIMIT: Cell<u64> = const { Cell::new(u64::MAX) };
+}
+
+pub const FUEL_MESSAGE: &str = "capy_verif: parser fuel exhausted";
+
+pub(crate) fn reset(token_count: usize) {
+    STEPS.with(|s| s.set(0));
+    LIMIT.with(|l| l.set(1_000_000 + 20_000 * token_count as u64));
+}
+
+pub(crate) fn tick() {
+    let steps = STEPS.with(|s| {
+        s.set(s.get() + 1);
+        s.get()
+    });
+    if steps > LIMIT.with(|l| l.get()) {
+        panic!("{}", FUEL_MESSAGE);
+    }
+}
+
+/// Steps taken by the most recent parse on this thread.
+pub fn last_steps() -> u64 {
+    STEPS.with(|s| s.get())
+}
